@@ -227,9 +227,9 @@ def esc_attr(t):
     return t.replace('&', '&amp;').replace('<', '&lt;').replace('"', '&quot;')
 
 
-def insitu_stylesheet(batch):
+def insitu_stylesheet(batch, rtf=False):
     """batch: list of pattern texts. Template rule i in mode m<i>; key k<i>; number instruction i."""
-    parts = ['<xsl:stylesheet version="1.0" xmlns:xsl="%s" xmlns:p="u1" xmlns:q="u2">' % XSL,
+    parts = ['<xsl:stylesheet version="1.0" xmlns:xsl="%s" xmlns:p="u1" xmlns:q="u2" xmlns:xalan="http://xml.apache.org/xalan" exclude-result-prefixes="xalan">' % XSL,
              # the key indexes every kind of node a pattern can match, so that key() heads are tried on all of them
              '<xsl:key name="k" match="*[@x]|text()|comment()|processing-instruction()|@y" use="\'v\'"/>']
     probe = ['<xsl:template name="probe">']
@@ -244,7 +244,15 @@ def insitu_stylesheet(batch):
         if 'key(' not in t:
             keys_out.append('<k i="%d"><xsl:for-each select="key(\'k%d\',\'k\')"><h><xsl:call-template name="path"/></h></xsl:for-each></k>' % (i, i))
     probe.append('</xsl:template>')
-    return ''.join(parts) + ''.join(probe) + (WALK % ''.join(keys_out)) + '</xsl:stylesheet>'
+    walk = WALK % ''.join(keys_out)
+    if rtf:
+        # the same walk over a copy of the document held in a result tree fragment (patterns must match nodes of such trees alike)
+        root_old = '<xsl:template match="/"><out><xsl:call-template name="walk"><xsl:with-param name="p" select="\'\'"/></xsl:call-template>%s</out></xsl:template>' % ''.join(keys_out)
+        assert root_old in walk
+        root_new = ('<xsl:variable name="rt"><xsl:copy-of select="/node()"/></xsl:variable><xsl:template match="/"><out><xsl:for-each select="xalan:nodeset($rt)">'
+                    '<xsl:call-template name="walk"><xsl:with-param name="p" select="\'\'"/></xsl:call-template>%s</xsl:for-each></out></xsl:template>' % ''.join(keys_out))
+        walk = walk.replace(root_old, root_new)
+    return ''.join(parts) + ''.join(probe) + walk + '</xsl:stylesheet>'
 
 
 def ref_number_multiple(node, M, doc):
@@ -303,6 +311,7 @@ def insitu_patterns(tier):
 
 
 def insitu_shard(shard, nshards, tier):
+    thorough = tier == 'thorough'
     docs = G.docs()
     use_docs = [0, 1, 4]
     w = vlib.Worker('xdrv', stderr_path=os.path.join(vlib.BUILD, 'tmp', 'c09i.%d.err' % shard))
@@ -312,10 +321,10 @@ def insitu_shard(shard, nshards, tier):
     counts = {'insitu_transformations': 0, 'insitu_observations': 0, 'insitu_patterns': 0}
     viols = []
 
-    def run_batch(batch, di):
+    def run_batch(batch, di, rtf=False):
         d = docs[di]
         texts = [pat_text(p) for _, p in batch]
-        xsl = insitu_stylesheet(texts)
+        xsl = insitu_stylesheet(texts, rtf)
         r = w.request('tr', xsl, d.to_xml())
         counts['insitu_transformations'] += 1
         if r[0] != '0':
@@ -340,19 +349,20 @@ def insitu_shard(shard, nshards, tier):
                     keys[i].add(h.string_value())
         return (tmpl, numb, keys), r
 
-    def check(batch, di):
+    def check(batch, di, rtf=False):
         d = docs[di]
-        res, raw = run_batch(batch, di)
+        tag = 'rtf-' if rtf else ''
+        res, raw = run_batch(batch, di, rtf)
         if res is None:
             if len(batch) == 1:
                 fam, p = batch[0]
                 exp = expected_matches(pat_ast(p), d, key_fn_factory(d))
                 if exp is not None:
-                    viols.append(('insitu-%s|unexpected-error|%s' % (fam, pat_text(p)), {'pattern': pat_text(p), 'doc': d.name, 'reply': raw[:2]}))
+                    viols.append(('insitu-%s%s|unexpected-error|%s' % (tag, fam, pat_text(p)), {'pattern': pat_text(p), 'doc': d.name, 'reply': raw[:2]}))
                 return
             mid = len(batch) // 2
-            check(batch[:mid], di)
-            check(batch[mid:], di)
+            check(batch[:mid], di, rtf)
+            check(batch[mid:], di, rtf)
             return
         tmpl, numb, keys = res
         for i, (fam, p) in enumerate(batch):
@@ -365,12 +375,12 @@ def insitu_shard(shard, nshards, tier):
                 extra, missing = got - exp, exp - got
                 return 'matches-too-much' if extra and not missing else ('matches-too-little' if missing and not extra else 'matches-differently')
             if tmpl[i] != exp:
-                viols.append(('insitu-template-%s|%s|%s' % (fam, kind_of(tmpl[i], exp), text),
+                viols.append(('insitu-%stemplate-%s|%s|%s' % (tag, fam, kind_of(tmpl[i], exp), text),
                               {'pattern': text, 'doc': d.name, 'xml': d.to_xml(), 'expected': sorted(exp), 'got': sorted(tmpl[i])}))
                 continue
             # xsl:key never holds the root node or namespace nodes? (XSLT: key match applies to every node of the document) -- compare as is
             if 'key(' not in text and keys[i] != exp:
-                viols.append(('insitu-key-%s|%s|%s' % (fam, kind_of(keys[i], exp), text),
+                viols.append(('insitu-%skey-%s|%s|%s' % (tag, fam, kind_of(keys[i], exp), text),
                               {'pattern': text, 'doc': d.name, 'xml': d.to_xml(), 'expected': sorted(exp), 'got': sorted(keys[i])}))
                 continue
             for n in d.nodes:
@@ -380,7 +390,7 @@ def insitu_shard(shard, nshards, tier):
                 e = ref_number_multiple(n, exp, d)
                 g = numb[i].get(pth, None)
                 if g != e:
-                    viols.append(('insitu-number-%s|%s|%s' % (fam, 'differs', text),
+                    viols.append(('insitu-%snumber-%s|%s|%s' % (tag, fam, 'differs', text),
                                   {'pattern': text, 'doc': d.name, 'xml': d.to_xml(), 'node': pth, 'expected': e, 'got': g}))
                     break
 
@@ -393,6 +403,13 @@ def insitu_shard(shard, nshards, tier):
                 check(batch, di)
             except vlib.WorkerDied as wd:
                 viols.append(('insitu|fatal|batch %d' % bi, {'patterns': [pat_text(p) for _, p in batch][:5], 'stderr': wd.stderr_tail[-1500:]}))
+        # the same patterns against a copy of the document held in a result tree fragment (no ID attributes there: id() heads left out)
+        rb = [(fam, p) for fam, p in batch if 'id(' not in pat_text(p)]
+        if rb and (thorough or bi % 3 == 0):
+            try:
+                check(rb, use_docs[0], True)
+            except vlib.WorkerDied as wd:
+                viols.append(('insitu-rtf|fatal|batch %d' % bi, {'patterns': [pat_text(p) for _, p in rb][:5], 'stderr': wd.stderr_tail[-1500:]}))
     w.close()
     return {'counts': counts, 'viols': viols, 'samples': []}
 
@@ -423,7 +440,7 @@ def main():
         'rule': 'Every pattern of the Pattern grammar with <=2 steps (heads: none, /, //, id()) x 4 axis forms x 10 node tests x 15 predicate '
                 'lists on the last step, 20 first steps, both joins; 3 steps reduced (thorough); all ordered pairs of 30 alternatives as unions. '
                 'For every pattern and EVERY node of each document XPath::getMatchScore != None is compared with membership in the union over '
-                'all context nodes A of the reference evaluation of the pattern as an expression. In situ: the same patterns (plus key() heads) '
+                'all context nodes A of the reference evaluation of the pattern as an expression. In situ: the same patterns (plus key() heads over every node kind, 182 ordered unions of alternatives with different target kinds, and a third of the batches (thorough: all) again against a copy of the document held in a result tree fragment) '
                 'as template match (own mode), xsl:key match and xsl:number count, 60 per generated stylesheet, bisected on failure. '
                 'A case is a pattern text; non-trivial = it matches at least one node of some document.',
         'samples': samples or ['none'],
